@@ -43,7 +43,7 @@ structure LocalOp (α β : Type) where
   fin : σ → List (LOut β)
   /-- what the operator does with an `OnErrorMux` of the key: forward it (every operator but the
   error handlers) -/
-  onErr : Err → List (LOut β) := fun e => [.err e]
+  onErr : σ → Err → σ × List (LOut β) := fun s e => (s, [.err e])
 
 /-- a multiplexed operator as a state machine over mux events -/
 structure MuxOp (α β : Type) where
@@ -83,7 +83,10 @@ def idxStep {α β} (L : LocalOp α β) (st : Nat → Option L.σ) : Ev α → (
     match st k.idx with
     | some s => (upd st k.idx none, (L.fin s).map (liftOut k) ++ [.done k])
     | none => (st, [.done k])
-  | .err k e => (st, (L.onErr e).map (liftOut k))
+  | .err k e =>
+    match st k.idx with
+    | some s => let r := L.onErr s e; (upd st k.idx (some r.1), r.2.map (liftOut k))
+    | none => (st, [.err k e])
   | .fatal e => (st, [.fatal e])
 
 def idxLift {α β} (L : LocalOp α β) : MuxOp α β := ⟨Nat → Option L.σ, fun _ => none, idxStep L⟩
@@ -99,7 +102,10 @@ def refStep {α β} (L : LocalOp α β) (st : Key → Option L.σ) : Ev α → (
     match st k with
     | some s => (upd st k none, (L.fin s).map (liftOut k) ++ [.done k])
     | none => (st, [.done k])
-  | .err k e => (st, (L.onErr e).map (liftOut k))
+  | .err k e =>
+    match st k with
+    | some s => let r := L.onErr s e; (upd st k (some r.1), r.2.map (liftOut k))
+    | none => (st, [.err k e])
   | .fatal e => (st, [.fatal e])
 
 def refLift {α β} (L : LocalOp α β) : MuxOp α β := ⟨Key → Option L.σ, fun _ => none, refStep L⟩
